@@ -236,8 +236,10 @@ def unit():
     m = C.method("__getitem__", {"global_identifier": INT}, STR)
     m.requires("global_identifier >= 0")
     m.requires("implies(self._storage_lock.depth >= 1, moninv(self))", "a-caller-holding-the-lock-kept-the-monitor-invariant")
-    m.raises("IndexError", when="self._storage_lock.depth >= 1 and not st(self._index, global_identifier)")
-    m.raises("IndexError", when="self._storage_lock.depth == 0", iff=False)
+    # other processes may have stored in the meantime (environment step at the lock): the state is NOT promised unchanged on these exits
+    m.raises("IndexError", when="self._storage_lock.depth >= 1 and not st(self._index, global_identifier)",
+             ensures=["self._storage_lock.depth == old(self._storage_lock.depth)"])
+    m.raises("IndexError", when="self._storage_lock.depth == 0", iff=False, ensures=["self._storage_lock.depth == old(self._storage_lock.depth)"])
     m.modifies("self._opened_files_for_reading", "RLock.depth[*]", "FHandle.pos[*]", "FileSystem.exists[*]", *shared)
     m.ensures("self._storage_lock.depth == old(self._storage_lock.depth)")
     m.ensures("st(self._index, global_identifier) and result == text_of(self, global_identifier)",
